@@ -21,12 +21,13 @@ Theorem C09_instance U r c resolved st t :
 Proof. exact (dispatch_instance U r c resolved st t). Qed.
 
 (** a function or method: called once with exactly the subset of the call's values that it names
-    ([resolved] contains [result]/[OLD] for postconditions and is [self] only for invariants);
-    what it returns is raised, a non-exception is a TypeError; a name the call does not provide is a
-    TypeError and the factory is not called. *)
-Theorem C09_factory U r c resolved st eargs :
-  cerror c = EFactory eargs ->
-  match select eargs eargs resolved with
+    ([resolved] contains [result]/[OLD] for postconditions and is [self] only for invariants) - a
+    parameter with a default value gets the call's value too when the call has one;
+    what it returns is raised, a non-exception is a TypeError; a parameter without a default that the
+    call does not provide is a TypeError and the factory is not called. *)
+Theorem C09_factory U r c resolved st eargs emand :
+  cerror c = EFactory eargs emand ->
+  match select eargs emand resolved with
   | None => create_violation_error U r c resolved st = ([], inr (XLib "TypeError" None), st)
   | Some kw =>
       kw = filter (fun kv => str_in (fst kv) eargs) resolved
@@ -38,7 +39,7 @@ Theorem C09_factory U r c resolved st eargs :
             | ERaise e => inr (XObj e)
             end, st)
   end.
-Proof. exact (dispatch_factory U r c resolved st eargs). Qed.
+Proof. exact (dispatch_factory U r c resolved st eargs emand). Qed.
 Print Assumptions C09_factory.
 
 (** over a whole checked call the factory of a contract is called at most once *)
